@@ -458,6 +458,16 @@ theorem Index.resolveClassRefAsMulticlass_n (a0 : _) : Keeps R (Index.resolveCla
   keeps
 macro_rules | `(tactic| keeps_prim) => `(tactic| (apply Index.resolveClassRefAsMulticlass_n <;> assumption))
 
+theorem Index.namesClassOnly_n (a0 : _) : Keeps R (Index.namesClassOnly a0) := by
+  unfold Index.namesClassOnly
+  keeps
+macro_rules | `(tactic| keeps_prim) => `(tactic| (apply Index.namesClassOnly_n <;> assumption))
+
+theorem Index.defmMulticlassParent_n (a0 a1 : _) : Keeps R (Index.defmMulticlassParent r a0 a1) := by
+  unfold Index.defmMulticlassParent
+  keeps
+macro_rules | `(tactic| keeps_prim) => `(tactic| (apply Index.defmMulticlassParent_n <;> assumption))
+
 theorem Index.indexParentClassList_n (a0 : _) : Keeps R (Index.indexParentClassList r a0) := by
   unfold Index.indexParentClassList
   keeps
